@@ -366,4 +366,223 @@ theorem decSamples_enc_v2 (xs : List RefSample) (h : ∀ s ∈ xs, SampleWF s) :
   rw [this, outAll_some]
   simp [liftErr]
 
+/-! ## histograms -/
+
+def SpanWF (s : Span) : Prop := I32 s.offset ∧ U32 s.length
+
+def BucketWF (fl : Bool) (b : Int) : Prop := if fl then 0 ≤ b ∧ b < 18446744073709551616 else I64 b
+
+/-- a list length the Go decoder can allocate (`make` panics beyond 2^45 eight-byte elements) -/
+def LenOK (n : Nat) : Prop := n ≤ 35184372088832
+
+/-- What `histogram.Histogram` / `FloatHistogram` can hold and the decoder returns unchanged: a known,
+    non-reserved schema (-4…8 or custom buckets -53), custom values only with the custom schema. -/
+structure HistWF (fl : Bool) (h : Hist) : Prop where
+  hint : U8 h.hint
+  schema : h.schema = -53 ∨ (-4 ≤ h.schema ∧ h.schema ≤ 8)
+  zt : U64 h.zt
+  zc : U64 h.zc
+  c : U64 h.c
+  sum : U64 h.sum
+  psLen : LenOK h.ps.length
+  nsLen : LenOK h.ns.length
+  pbLen : LenOK h.pb.length
+  nbLen : LenOK h.nb.length
+  cvLen : LenOK h.cv.length
+  ps : ∀ s ∈ h.ps, SpanWF s
+  ns : ∀ s ∈ h.ns, SpanWF s
+  pb : ∀ b ∈ h.pb, BucketWF fl b
+  nb : ∀ b ∈ h.nb, BucketWF fl b
+  cv : ∀ v ∈ h.cv, U64 v
+  cvOnlyCustom : h.schema ≠ -53 → h.cv = []
+
+theorem decSpan_enc (s : Span) (h : SpanWF s) (rest : Bytes) : decSpan (encSpan s ++ rest) = .ok (s, rest) := by
+  obtain ⟨h1, h2⟩ := h
+  unfold decSpan encSpan
+  rw [List.append_assoc, decVarint_put (by unfold I32 at h1; unfold I64; omega)]
+  simp only [bind, Except.bind]
+  rw [decUvarint_put (by unfold U32 at h2; unfold U64; omega)]
+  simp only [pure, Except.pure]
+  rw [wrap32_id h1]
+  unfold U32 at h2
+  rw [Nat.mod_eq_of_lt h2]
+
+theorem decBucket_enc (fl : Bool) (b : Int) (h : BucketWF fl b) (rest : Bytes) :
+    decBucket fl (encBucket fl b ++ rest) = .ok (b, rest) := by
+  unfold decBucket encBucket BucketWF at *
+  cases fl with
+  | false => simp only [Bool.false_eq_true, if_false] at *; exact decVarint_put h rest
+  | true =>
+    simp only [if_true] at *
+    rw [getBE64_putBE64 (by unfold U64; omega)]
+    simp only [bind, Except.bind, pure, Except.pure]
+    congr 2
+    omega
+
+theorem decCount_enc (fl : Bool) (n : Nat) (h : U64 n) (rest : Bytes) :
+    decCount fl (encCount fl n ++ rest) = .ok (n, rest) := by
+  unfold decCount encCount
+  cases fl with
+  | false => simp only [Bool.false_eq_true, if_false]; exact decUvarint_put h rest
+  | true => simp only [if_true]; exact getBE64_putBE64 h rest
+
+theorem decCounted_enc {α} (get : Bytes → Except DecErr (α × Bytes)) (put : α → Bytes) (P : α → Prop)
+    (hget : ∀ x rest, P x → get (put x ++ rest) = .ok (x, rest))
+    (xs : List α) (hl : LenOK xs.length) (hx : ∀ x ∈ xs, P x) (rest : Bytes) :
+    decCounted get ((putUvarint xs.length ++ xs.flatMap put) ++ rest) = .ok (xs, rest) := by
+  unfold LenOK at hl
+  unfold decCounted
+  rw [List.append_assoc, decUvarint_put (by unfold U64; omega)]
+  simp only [bind, Except.bind]
+  rw [if_neg (by omega), countOf_small (by omega)]
+  exact readN_flatMap get put P hget xs rest hx
+
+theorem decHist_enc (fl : Bool) (h : Hist) (wf : HistWF fl h) (rest : Bytes) :
+    decHist fl (encHist fl h ++ rest) = .ok (h, rest) := by
+  have hh := wf.hint
+  unfold U8 at hh
+  have hb : (UInt8.ofNat h.hint).toNat = h.hint := by rw [UInt8.toNat_ofNat']; omega
+  have hs32 : I32 h.schema := by unfold I32; rcases wf.schema with e | e <;> omega
+  have hs64 : I64 h.schema := by unfold I64; rcases wf.schema with e | e <;> omega
+  unfold decHist encHist
+  simp only [List.append_assoc, List.cons_append, List.nil_append, getByte, bind, Except.bind, hb]
+  rw [decVarint_put hs64]
+  simp only
+  rw [getBE64_putBE64 wf.zt]
+  simp only
+  rw [decCount_enc fl _ wf.zc]
+  simp only
+  rw [decCount_enc fl _ wf.c]
+  simp only
+  rw [getBE64_putBE64 wf.sum]
+  simp only
+  rw [← List.append_assoc (putUvarint h.ps.length), decCounted_enc decSpan encSpan SpanWF
+    (fun x r hx => decSpan_enc x hx r) h.ps wf.psLen wf.ps]
+  simp only
+  rw [← List.append_assoc (putUvarint h.ns.length), decCounted_enc decSpan encSpan SpanWF
+    (fun x r hx => decSpan_enc x hx r) h.ns wf.nsLen wf.ns]
+  simp only
+  rw [← List.append_assoc (putUvarint h.pb.length), decCounted_enc (decBucket fl) (encBucket fl) (BucketWF fl)
+    (fun x r hx => decBucket_enc fl x hx r) h.pb wf.pbLen wf.pb]
+  simp only
+  rw [← List.append_assoc (putUvarint h.nb.length), decCounted_enc (decBucket fl) (encBucket fl) (BucketWF fl)
+    (fun x r hx => decBucket_enc fl x hx r) h.nb wf.nbLen wf.nb]
+  simp only [wrap32_id hs32]
+  by_cases hc : h.schema = -53
+  · have hic : h.isCustom = true := by unfold Hist.isCustom; simp [hc]
+    rw [if_pos hc, hic]
+    simp only [if_true]
+    rw [decCounted_enc getBE64 putBE64 U64
+      (fun x r hx => getBE64_putBE64 hx r) h.cv wf.cvLen wf.cv]
+    simp only [pure, Except.pure]
+  · have hic : h.isCustom = false := by unfold Hist.isCustom; simp [hc]
+    rw [if_neg hc, hic]
+    simp only [Bool.false_eq_true, if_false, List.nil_append, pure, Except.pure]
+    have := wf.cvOnlyCustom hc
+    cases h
+    simp only at this
+    subst this
+    rfl
+
+theorem finishHist_wf (fl : Bool) (h : Hist) (wf : HistWF fl h) : finishHist h = .ok (some h) := by
+  unfold finishHist knownSchema
+  rcases wf.schema with e | e
+  · simp [e]
+  · have h1 : ¬ (8 < h.schema ∧ h.schema ≤ 52) := by omega
+    have h2 : (decide (-9 ≤ h.schema) && decide (h.schema ≤ 52)) = true := by
+      simp only [Bool.and_eq_true, decide_eq_true_eq]; omega
+    simp [h1, h2]
+
+def RefHistWF (fl : Bool) (x : RefHist) : Prop := U64 x.ref ∧ I64 x.st ∧ I64 x.t ∧ HistWF fl x.h
+
+theorem encHist_ne_nil (fl : Bool) (h : Hist) : encHist fl h ≠ [] := by
+  unfold encHist; simp
+
+theorem stepHistV1_enc (fl : Bool) (baseRef : Nat) (hb : U64 baseRef) (baseT : Int) (x : RefHist)
+    (h : RefHistWF fl x) (rest : Bytes) :
+    stepHistV1 fl baseRef baseT () (encHistItemV1 fl baseRef baseT x ++ rest)
+      = .ok ((), some { x with st := 0 }, rest) := by
+  obtain ⟨h1, _, h3, h4⟩ := h
+  unfold stepHistV1 encHistItemV1
+  simp only [List.append_assoc]
+  rw [decVarint_put (wrap64_I64 _)]
+  simp only [bind, Except.bind]
+  rw [decVarint_put (wrap64_I64 _)]
+  simp only
+  rw [decHist_enc fl _ h4]
+  simp only
+  rw [finishHist_wf fl _ h4]
+  simp only [pure, Except.pure, Option.map]
+  rw [ref_delta_roundtrip_u h1 hb, time_delta_roundtrip _ h3]
+
+def dropST (x : RefHist) : RefHist := { x with st := 0 }
+
+theorem encHistItemV1_ne_nil (fl : Bool) (r : Nat) (t : Int) (x : RefHist) : encHistItemV1 fl r t x ≠ [] := by
+  unfold encHistItemV1; simp only [List.append_assoc]; exact putVarint_append_ne_nil _ _
+
+/-- body of a V1 histogram record (after the type byte) -/
+theorem decHistsV1_body (fl : Bool) (first : RefHist) (hf : U64 first.ref ∧ I64 first.t) (ys : List RefHist)
+    (h : ∀ x ∈ ys, RefHistWF fl x) :
+    decHistsV1 fl (putBE64 first.ref ++ putBE64 (toU64 first.t) ++ encEach (encHistItemV1 fl first.ref first.t) ys)
+      = .ok (ys.map dropST) := by
+  unfold decHistsV1
+  simp only [List.append_assoc]
+  rw [if_neg (by simp [putBE64])]
+  rw [getBE64_putBE64 hf.1]
+  simp only [bind, Except.bind]
+  rw [getBE64_putBE64 (toU64_lt _)]
+  simp only
+  rw [toI64_toU64 hf.2]
+  exact loop_each (stepHistV1 fl first.ref first.t) (encHistItemV1 fl first.ref first.t) dropST
+    (RefHistWF fl) (fun x r hx => stepHistV1_enc fl _ hf.1 _ x hx r)
+    (fun x _ => encHistItemV1_ne_nil fl _ _ x) ys h _ (Nat.le_refl _)
+
+theorem decHists_enc_custom_v1 (fl : Bool) (xs : List RefHist) (h : ∀ x ∈ xs, RefHistWF fl x) :
+    decHists fl (encCustomHistsV1 fl xs) = .ok (xs.map dropST) := by
+  unfold decHists encCustomHistsV1
+  cases xs with
+  | nil => simp [decHistsV1, liftErr]
+  | cons first rest =>
+    have hf := h first (by simp)
+    simp only
+    rw [if_pos (Or.inr trivial), decHistsV1_body fl first ⟨hf.1, hf.2.2.1⟩ _ h]
+    rfl
+
+theorem encEach_filter {α} (f : α → Bytes) (p : α → Bool) (xs : List α) :
+    encEach (fun x => if p x then [] else f x) xs = encEach f (xs.filter fun x => !p x) := by
+  rw [encAll_const_flatMap, encAll_const_flatMap]
+  induction xs with
+  | nil => rfl
+  | cons x xs ih =>
+    cases hp : p x <;> simp [List.filter_cons, hp, ih]
+
+theorem encHistsV1_leftover (fl : Bool) (xs : List RefHist) :
+    (encHistsV1 fl xs).2 = xs.filter (·.h.isCustom) := by
+  cases xs <;> rfl
+
+theorem encHistsV1_all_custom (fl : Bool) (xs : List RefHist) (hne : xs ≠ [])
+    (hall : xs.length = (xs.filter (·.h.isCustom)).length) : (encHistsV1 fl xs).1 = [] := by
+  cases xs with
+  | nil => exact absurd rfl hne
+  | cons first rest => unfold encHistsV1; simp only; rw [if_pos hall]
+
+theorem decHists_enc_split_v1 (fl : Bool) (xs : List RefHist) (h : ∀ x ∈ xs, RefHistWF fl x)
+    (hsome : xs = [] ∨ xs.length ≠ (xs.filter (·.h.isCustom)).length) :
+    decHists fl (encHistsV1 fl xs).1 = .ok ((xs.filter fun x => !x.h.isCustom).map dropST) := by
+  cases xs with
+  | nil => simp [encHistsV1, decHists, decHistsV1, liftErr]
+  | cons first rest =>
+    have hf := h first (by simp)
+    have hne : (first :: rest).length ≠ ((first :: rest).filter (·.h.isCustom)).length := by
+      rcases hsome with e | e
+      · exact absurd e (by simp)
+      · exact e
+    unfold encHistsV1 decHists
+    simp only
+    rw [if_neg hne]
+    simp only
+    rw [if_pos (Or.inl trivial), encEach_filter,
+      decHistsV1_body fl first ⟨hf.1, hf.2.2.1⟩ _ (fun x hx => h x (List.mem_filter.mp hx).1)]
+    rfl
+
 end Prom.Record
